@@ -496,5 +496,24 @@ def r6_memo(chk: Check) -> None:
                          "MEMO-KEY(anchor modules of this property): what is written is sanitized per value and configuration: a cache keyed by less returns a value sanitized (or not) under another configuration", floor=0)
 
 
+def r7_global_config_accumulates(chk: Check) -> None:
+    chk.rule("C15.R7", "ACCUMULATE(process-wide sanitization config): configure() / extend() take only the settings the caller passes (the others are NOT_SET) and rebind the module-level default; every such rebind computes the new value FROM the current default (the right-hand side reads the global) - a rebind that starts from a fresh SanitizationConfig() forgets the keys / markers registered by an earlier call, and values under those keys reach every output unredacted while the built-in keys still look redacted", floor=2)
+    P = chk.project
+    mod = P.module("core/output/sanitization.py")
+    n = 0
+    for fn in mod.functions.values():
+        if isinstance(fn.node, ast.Lambda) or fn.parent is not None or fn.cls is not None:
+            continue
+        globs = {nm for x in walk_body(fn.node) if isinstance(x, ast.Global) for nm in x.names}
+        for x in walk_body(fn.node):
+            if isinstance(x, ast.Assign) and len(x.targets) == 1 and isinstance(x.targets[0], ast.Name) and x.targets[0].id in globs and "SANITIZATION" in x.targets[0].id.upper():
+                n += 1
+                g_ = x.targets[0].id
+                reads = g_ in names_in(x.value)
+                chk.decide(reads, "C15.R7", fn, f"{fn.name}: `{g_}` is rebound from its current value", f"the new process-wide config is built without reading the current one (`{unparse(x.value, 70)}`): keys_to_sanitize / sensitive_markers registered earlier are forgotten by this call", fn.loc(x))
+    if n < 2:
+        chk.undecided("C15.R7", "<discovery>", f"rebinding functions={n}", "fewer functions rebinding the default config than confirmed by hand (2)")
+
+
 def rules(tier: str) -> list:  # type: ignore[type-arg]
-    return [r1_writers, r2_curl, r3_plumbing, r4_sanitizer, r5_console_urls, r5b_schema_location, r5c_error_messages, r6_late_bound_config, rfwd_forwarding, r6_memo]
+    return [r1_writers, r2_curl, r3_plumbing, r4_sanitizer, r5_console_urls, r5b_schema_location, r5c_error_messages, r6_late_bound_config, rfwd_forwarding, r6_memo, r7_global_config_accumulates]
